@@ -54,6 +54,8 @@ def shape(e: ast.AST, vals: str, guard_len, idx_dims: dict):
     if isinstance(e, ast.Name) and e.id == vals:
         return ("FLAT", guard_len)
     if isinstance(e, ast.Subscript) and isinstance(e.value, ast.Name) and e.value.id == vals:
+        if isinstance(e.slice, ast.Slice) and e.slice.step is not None:
+            return ("SEQ", "strided")
         if isinstance(e.slice, ast.Slice):
             lo, hi = e.slice.lower, e.slice.upper
             # values[i*m:(i+1)*m]
@@ -128,6 +130,8 @@ def is_table(sh) -> tuple:
             return False, f"row entries are {show(el)}"
         return True, ""
     if row[0] == "SEQ":
+        if row[1] == "strided":
+            return False, "each row is a strided slice of the tuple (every k-th entry): the per-pair modes are read transposed"
         if row[1] != "m":
             return False, f"each row is a sequence of {row[1]} modes, not one per task"
         return True, ""
